@@ -1657,6 +1657,7 @@ pub fn seeded_fault_scenario_traced(run_seed: u64, thorough: bool, print: bool) 
     let try_plan = |plan: FaultPlan, stats: &mut PwlStats, result: &mut FaultScenarioResult| {
         let mut s = sc.clone();
         s.fault_plan = plan;
+        crate::common::heartbeat();
         event(&format!("plan {:?}", s.fault_plan.faults.iter().map(|(k, f)| format!("{k}:{}", f.label())).collect::<Vec<_>>()));
         let (v, _calls, pool) = run_suffix(&prefix_pool, &prefix_models, &s, stats);
         result.executions += 1;
@@ -1672,14 +1673,15 @@ pub fn seeded_fault_scenario_traced(run_seed: u64, thorough: bool, print: bool) 
     };
     // enumeration: every position x every kind (quick tier: at most 48 positions per scenario - the
     // first 16, the last 16 and 16 seeded ones in between; counted as a partial enumeration)
-    let positions: Vec<usize> = if thorough || n_calls <= 48 {
+    let cap = if thorough { 160 } else { 48 };
+    let positions: Vec<usize> = if n_calls <= cap {
         (0..n_calls).collect()
     } else {
         let mut set: BTreeSet<usize> = (0..16).chain(n_calls - 16..n_calls).collect();
-        while set.len() < 48 {
+        while set.len() < cap {
             set.insert(16 + rng.below(n_calls - 32));
         }
-        bump(&mut stats.probes, "scenario with more than 48 LP calls: single-fault enumeration restricted to 48 positions", 1);
+        bump(&mut stats.probes, "scenario with more LP calls than the tier's cap (48 quick / 160 thorough): single-fault enumeration restricted to a seeded subset of positions", 1);
         set.into_iter().collect()
     };
     for pos in positions {
